@@ -276,7 +276,30 @@ fn run_dec_bytes(enc: &'static Encoding, bytes: &[u8], drv: &mut DecDriver, st: 
         }
     }
     if let Some((method, msg)) = check_decode(enc, bytes, drv, Some(st)) {
-        let min = shrink_bytes(enc, bytes);
+        // the greedy shrinker is quadratic; very long inputs are only halved while they still fail
+        let min = if bytes.len() > 20_000 {
+            let mut cur = bytes.to_vec();
+            loop {
+                let half = cur.len() / 2;
+                if half < 10_000 {
+                    break;
+                }
+                if check_decode(enc, &cur[..half], drv, None).is_some() {
+                    cur.truncate(half);
+                } else if check_decode(enc, &cur[half..], drv, None).is_some() {
+                    cur.drain(..half);
+                } else {
+                    break;
+                }
+            }
+            if cur.len() <= 20_000 {
+                shrink_bytes(enc, &cur)
+            } else {
+                cur
+            }
+        } else {
+            shrink_bytes(enc, bytes)
+        };
         let (m2, msg2) = check_decode(enc, &min, drv, None).unwrap_or((method, msg));
         st.violations.push(dec_violation(enc, &min, m2, msg2));
         return false;
@@ -303,6 +326,12 @@ fn structured(ctx: &Ctx, force_scalar: bool) -> Stats {
             specials.push(vec![0x1B]);
             specials.push(vec![0xFF]);
         }
+        // BOMs as data: at offset 0 they are covered by the prefixes below; after an ASCII run they
+        // are ordinary bytes of the nominal encoding for every method
+        specials.push(b"\xEF\xBB\xBFd".to_vec());
+        specials.push(b"\xFF\xFEd\x00e\x00".to_vec());
+        specials.push(b"\xFE\xFF\x00d\x00e".to_vec());
+        specials.push(b"\xFF\xFE\x00\x00".to_vec());
         let extras: &[usize] = if thorough { &[0, 1, 63, 64, 65, 127, 128, 1000] } else { &[0, 1, 64, 1000] };
         let prefixes: [&[u8]; 4] = [b"", b"\xEF\xBB\xBF", b"\xFF\xFE", b"\xFE\xFF"];
         for off in 0..=130usize {
